@@ -359,7 +359,8 @@ def mixture_cases(draw):
             "vals": draw(st.lists(st.floats(-3, 3, allow_nan=False), min_size=30, max_size=30)),
             "w": draw(st.lists(st.floats(-3, 3), min_size=k, max_size=k)), "scale_w": draw(st.sampled_from([1e-3, 0.37, 1.0, 250.0, 1e3])),
             "z": draw(st.lists(st.floats(-4, 4, allow_nan=False), min_size=6, max_size=6)),
-            "sample": draw(st.integers(0, 2)) == 0, "key": draw(st.integers(0, 10**6))}
+            "sample": draw(st.integers(0, 2)) == 0, "key": draw(st.integers(0, 10**6)),
+            "perturb": draw(st.sampled_from([0.0, 0.0, 0.5, 1.5])), "pseed": draw(st.integers(0, 999))}
 
 
 def oracle_mixture(c, ctx):
@@ -375,6 +376,19 @@ def oracle_mixture(c, ctx):
     mix2 = lib_call("C05|Mixture|construct", D.VmapMixture, comp, jnp.asarray(w * c["scale_w"]))
     if tuple(mix.shape) != ev:
         raise Violation("C05|Mixture|shape", f"{mix.shape} vs {ev}")
+    ps = float(c.get("perturb", 0.0) or 0.0)
+    if ps and fam != "LogNormal":  # LogNormal documents no accessors to read the moved parameters back from
+        # "every valid parameter value": move the trainable (unconstrained) arrays the way an optimiser does, read the
+        # moved component parameters and weights back through the accessors, and demand the same defining formula.
+        from flowjax.wrappers import unwrap
+        from vf import build as bd
+        mix = bd.perturb(mix, ps, int(c.get("pseed", 0)))
+        mix2 = None
+        um = unwrap(mix)
+        p = {kk: np.asarray(getattr(um.dist, kk), np.float64) for kk in p}
+        lw = np.asarray(um.log_normalized_weights, np.float64)
+        w = np.exp(lw - np.max(lw))
+        ctx.hist("mixture_perturbed", fam)
     logw = np.log(w) - np.log(np.sum(w))
     # evaluation points around the components
     n = int(np.prod(ev)) if ev else 1
@@ -385,7 +399,7 @@ def oracle_mixture(c, ctx):
         xs.append(np.broadcast_to(support_point(fam, pj, "bulk", z * np.ones(ev)), ev))
     x = np.stack(xs)
     lp = np.asarray(lib_call("C05|Mixture|log_prob", mix.log_prob, jnp.asarray(x)), np.float64)
-    lp2 = np.asarray(lib_call("C05|Mixture|log_prob", mix2.log_prob, jnp.asarray(x)), np.float64)
+    lp2 = lp if mix2 is None else np.asarray(lib_call("C05|Mixture|log_prob", mix2.log_prob, jnp.asarray(x)), np.float64)
     comp_lp = np.stack([ref_logpdf(fam, x, {kk: v[j] for kk, v in p.items()}).reshape(len(x), -1).sum(1) for j in range(k)], 1)
     want = sp.logsumexp(comp_lp + logw[None, :], axis=1)
     if np.any(np.isnan(lp)):
